@@ -209,11 +209,17 @@ func forall(lo, hi int, f func(int) bool) bool {
 //@     invariant forall(func(x T) bool { return has(s.m, x) == exists(0, idx_, func(k int) bool { return vs[k] == x }) })
 
 // ---- persistent-style operations used by the level layout (C18): the receiver is never changed.
+// (A derived set gets COPIES of the map and of the element slice: Without compacts its slice in
+// place and Added appends to it - on a shared array that would disturb the set it came from. In
+// the engine's value semantics sharing is invisible, so the copies themselves are demanded.)
 //@ func Set.clone
-//@   property C18
+//@   property C18 C19
 //@   requires s != nil
 //@   modifies nothing
 //@   ensures fresh(result) && same(result.m, s.m) && same(result.l, s.l)
+//@   atcall Clone@0: same(arg0, s.m)
+//@   atcall Clone@1: same(arg0, s.l)
+//@   ensures called("slices.Clone") && called("maps.Clone")
 
 //@ func Set.Added
 //@   property C18
